@@ -198,9 +198,11 @@ def class_params(tier, seed):
         seen.add(key)
         out.append((dict(src="kit", kit=kit, cls=name), pat, fixed_letters(pat)))
     geos = geometries()
-    names = QUICK_ENZYMES if tier == "quick" else [v[0] for k, v in sorted(geos.items())] + AMBIGUOUS_ENZYMES
+    names = QUICK_ENZYMES + ["LpnPI"] if tier == "quick" else [v[0] for k, v in sorted(geos.items())] + AMBIGUOUS_ENZYMES
     for e in names:
         for role in ("module", "vector"):
+            if tier == "quick" and e in AMBIGUOUS_ENZYMES and role == "vector":
+                continue
             cls = generic_class(st, role, e)
             pat = cls.structure()
             key = pat + role
@@ -226,6 +228,12 @@ def obligations(tier, seed):
                       expect_witness=("accepted", "rejected"), group="third-site " + e))
     slack = tier_pick(tier, [1], [0, 1, 2, 3, 4])
     for params, pat, F in class_params(tier, seed):
+        if tier == "quick" and params.get("enzyme") in AMBIGUOUS_ENZYMES:
+            # a cutter with ambiguity codes (B/D/H/V) in its site, decided at the minimal length in the quick tier
+            label = "generic %s over %s" % (params["role"], params["enzyme"])
+            obs.append(Ob("%s n=%d (F=%d)" % (label, F, F), ob_class, dict(params, n=F), samples=3, cost=F ** 3,
+                          expect_witness=("accepted", "rejected"), group=label))
+            continue
         label = "%s.%s" % (params["kit"], params["cls"]) if params["src"] == "kit" else \
             "generic %s over %s" % (params["role"], params["enzyme"])
         for s in slack:
